@@ -168,5 +168,13 @@ def run_on(fb, chk, tag=""):
                     and not any(x[0] in ("bin", "un") for x in subterms(mask))
                 idx_ok = ai is not None and ai[1] == ("0",) and pushed_next is not None and ai[0] == pushed_next[0] and pushed_next[1] == ("1",)
                 ok = mask_ok and idx_ok
+    # one worker object per element of queues_per_thread, in order: the registration indexes `handlers` by the position of
+    # the mask, so no mask may be skipped (not even one that selects no queue)
+    from .c11 import _skippable_in_loop
+    hp_ = [(bb, t, c) for bb, t, c in pushes if "VringEpollHandler" in (t.get("atys") or ["", ""])[1]]
+    skipped = [bb for bb, t, c in hp_ if _skippable_in_loop(hmn.cfg, bb)]
+    chk.check(len(hp_) >= 1 and not skipped, "E3", tag + "one-worker-per-mask", "a worker handler is created for every mask, in mask order",
+              "VhostUserHandler::new can skip creating the worker for a mask (%d handler pushes, %d skippable): `handlers[i]` no longer "
+              "belongs to `queues_per_thread[i]`, kicks are routed to the wrong worker" % (len(hp_), len(skipped)), hn.loc())
     chk.check(ok, "E3", tag + "slice", "a ring joins a thread's slice iff its bit is set in the thread's mask (in queue order)",
               "per-thread ring slices are not selected by the mask bit", hn.loc())
